@@ -24,6 +24,29 @@ pub fn representatives(c: &Coin, strict: bool) -> Vec<Vec<u8>> {
     v.push(op_return(b"class representative"));
     v.push(vec![0x73, 0x63, 0x72]); // unrecognised
     v.push(vec![]); // empty
+    // scripts far longer than any standardness / element-size limit: still templates for the reference rules
+    v.push({
+        let mut s = vec![0x6a];
+        s.extend(push_with(2, &vec![b'z'; 12_000]));
+        s
+    });
+    if !c.is_bitcoin_family() {
+        v.push({
+            let mut s = push_with(2, &filler(41, 12_000));
+            s.push(0xac);
+            s
+        }); // P2PK with a 12 000-byte "key" (any non-empty push fills the slot)
+        v.push({
+            let mut s = p2sh(&h20(42));
+            s.extend(std::iter::repeat(0x61).take(10_001));
+            s
+        }); // P2SH followed by 10 001 NOPs
+        v.push({
+            let mut s = vec![0x61; 600];
+            s.extend(p2pkh(&h20(43)));
+            s
+        });
+    }
     if c.is_bitcoin_family() {
         v.push(witness(0, &filler(14, 20)));
         v.push(witness(0, &filler(15, 32)));
@@ -88,6 +111,20 @@ pub fn representatives(c: &Coin, strict: bool) -> Vec<Vec<u8>> {
 }
 
 fn world_for(c: &'static Coin, scripts: &[Vec<u8>], per_tx: usize) -> ChainBuilder {
+    // interleave address-less and address-bearing outputs so that every transaction has an address-less output BEFORE an
+    // address-bearing one (output index != rank among addressed outputs) and vice versa
+    let (with, without): (Vec<Vec<u8>>, Vec<Vec<u8>>) = scripts.iter().cloned().partition(|s| script::expect(c, s).address.is_some());
+    let mut inter: Vec<Vec<u8>> = Vec::new();
+    let (mut wi, mut wo) = (with.into_iter(), without.into_iter());
+    loop {
+        let (a, b) = (wo.next(), wi.next());
+        if a.is_none() && b.is_none() {
+            break;
+        }
+        inter.extend(a);
+        inter.extend(b);
+    }
+    let scripts = &inter[..];
     let mut cb = ChainBuilder::with_genesis(c);
     let mut txs = Vec::new();
     for (k, chunk) in scripts.chunks(per_tx).enumerate() {
